@@ -171,6 +171,7 @@ func runSegments(sc segScript, chunks [][]byte, plan segPlan) (*segResult, error
 		lg.add(segEv{"e": "cb", "name": "pevents", "pkt": id, "rows": len(e)})
 		return nil
 	}
+	conn.SkipServerRead()
 	done := make(chan error, 1)
 	var finished bool
 	var fmu sync.Mutex
@@ -186,6 +187,12 @@ func runSegments(sc segScript, chunks [][]byte, plan segPlan) (*segResult, error
 		done <- err
 	}()
 	res := &segResult{}
+	// a server answers a request it has read: wait until the whole request (Query packet, empty external-data block)
+	// has been written - otherwise the response can fail the query while its sender is still flushing, and which of
+	// the two errors Do returns is up to the Go scheduler
+	if err := awaitRequest(conn, cl.ServerInfo().Revision, sc.comp != "disabled"); err != nil {
+		return nil, fmt.Errorf("the client's request did not arrive: %w", err)
+	}
 	// the feeder: a piece is handed over only when the reader waits with nothing to read
 	off, calls := 0, conn.ReadCalls()-1
 	closes := len(sc.items) > 0 && (sc.items[len(sc.items)-1].K == "cut" || sc.items[len(sc.items)-1].K == "trunc")
@@ -228,7 +235,11 @@ func runSegments(sc segScript, chunks [][]byte, plan segPlan) (*segResult, error
 		derr = <-done
 	}
 	conn.OnRead = nil
-	ret := segEv{"e": "ret", "err": segErrClass(derr), "closed": cl.IsClosed(), "undelivered": res.undelivered, "stuck": res.stuck}
+	errText := ""
+	if derr != nil {
+		errText = derr.Error()
+	}
+	ret := segEv{"e": "ret", "errText": errText, "err": segErrClass(derr), "closed": cl.IsClosed(), "undelivered": res.undelivered, "stuck": res.stuck}
 	var exc *ch.Exception
 	chain := []int{}
 	if errors.As(derr, &exc) {
@@ -241,6 +252,53 @@ func runSegments(sc segScript, chunks [][]byte, plan segPlan) (*segResult, error
 	lg.add(ret)
 	res.evs = lg.evs
 	return res, nil
+}
+
+// awaitRequest reads the client's request for a SELECT the way a server does.
+func awaitRequest(conn *simconn.Conn, rev int, compressed bool) error {
+	if rev > proto.Version {
+		rev = proto.Version
+	}
+	r := proto.NewReader(conn.ServerReader())
+	code, err := r.UVarInt()
+	if err != nil {
+		return err
+	}
+	if proto.ClientCode(code) != proto.ClientCodeQuery {
+		return fmt.Errorf("unexpected client packet %d", code)
+	}
+	var q proto.Query
+	if err := q.DecodeAware(r, rev); err != nil {
+		return err
+	}
+	for {
+		code, err := r.UVarInt()
+		if err != nil {
+			return err
+		}
+		if proto.ClientCode(code) != proto.ClientCodeData {
+			return fmt.Errorf("unexpected client packet %d", code)
+		}
+		var cd proto.ClientData
+		if err := cd.DecodeAware(r, rev); err != nil {
+			return err
+		}
+		if compressed {
+			r.EnableCompression()
+		}
+		var blk proto.Block
+		var res proto.Results
+		err = blk.DecodeBlock(r, rev, res.Auto())
+		if compressed {
+			r.DisableCompression()
+		}
+		if err != nil {
+			return err
+		}
+		if blk.Columns == 0 && blk.Rows == 0 {
+			return nil
+		}
+	}
 }
 
 func segScripts(r *rand.Rand, n int) [][]lifecycle.Item {
@@ -288,6 +346,9 @@ func segmentsMain(args []string) error {
 	nrand := fs.Int("rand", 6, "random segmentations per stream")
 	shard := fs.Int("shard", 0, "this shard")
 	nshard := fs.Int("nshard", 1, "number of shards")
+	onlyCase := fs.String("case", "", "replay: only this case (e.g. s86-zstd)")
+	onlyPlan := fs.String("plan", "", "replay: only this plan besides the reference (e.g. two@100)")
+	repeat := fs.Int("repeat", 1, "replay: run the selected plan this often")
 	fs.Parse(args)
 	tw, err := tracew.Create(*out)
 	if err != nil {
@@ -303,7 +364,11 @@ func segmentsMain(args []string) error {
 				continue
 			}
 			caseNo++
-			if caseNo%*nshard != *shard {
+			if *onlyCase != "" {
+				if fmt.Sprintf("s%d-%s", si, comp) != *onlyCase {
+					continue
+				}
+			} else if caseNo%*nshard != *shard {
 				continue
 			}
 			cr := rand.New(rand.NewSource(*seed*100003 + int64(si*10+ci)))
@@ -402,6 +467,19 @@ func segmentsMain(args []string) error {
 			}
 			var ref []segEv
 			var refRet segEv
+			if *onlyPlan != "" {
+				var sel []segPlan
+				for pi, pl := range plans {
+					if pi == 0 {
+						sel = append(sel, pl)
+					} else if pl.name == *onlyPlan {
+						for k := 0; k < *repeat; k++ {
+							sel = append(sel, pl)
+						}
+					}
+				}
+				plans = sel
+			}
 			for pi, plan := range plans {
 				res, err := runSegments(sc, chunks, plan)
 				if err != nil {
